@@ -19,7 +19,7 @@ RULE = ("endings = {orderly release, close (FIN and RST) after every byte offset
         "resource or held a session instance")
 ASSUMPTIONS = ["'at quiescence' = after the disconnect hook was observed and the worker/selector slot count settled, awaited with a 10 s watchdog (expiry = inconclusive unless a server thread died)",
                "connections whose handshake was refused are only required to see <= 1 hook call and a closed socket"]
-REQUIRED_REACH = ["tls_daemon_shards", "server_ended_with_lingering_client", "ending_ok", "offset_endings", "resources_closed_once", "session_instances_dropped", "witness_unaffected", "timeout_endings", "security_endings", "callback_endings", "churn_connections_checked", "injected_yields", "application_hooks_that_raised", "resources_tracked_by_oneway_calls", "slow_hook_cases_ok"]
+REQUIRED_REACH = ["big_request_endings", "tls_daemon_shards", "server_ended_with_lingering_client", "ending_ok", "offset_endings", "resources_closed_once", "session_instances_dropped", "witness_unaffected", "timeout_endings", "security_endings", "callback_endings", "churn_connections_checked", "injected_yields", "application_hooks_that_raised", "resources_tracked_by_oneway_calls", "slow_hook_cases_ok"]
 SHARD_TIMEOUT = {"quick": 240, "thorough": 3000}
 
 
@@ -203,6 +203,10 @@ def gen_cases(r, tier, reqlen, servertype=None):
         cases.append({"ending": "callback"})
         cases.append({"ending": "rst-after-request"})
         cases.append({"ending": "refused-handshake"})
+    # a large request (200 kB) cut short with much of it - more than one receive chunk of 60000 bytes, or less - still missing
+    for off in (40, 140, 70000, 130000, 199000, 200100):
+        for how in ("fin", "rst"):
+            cases.append({"ending": "big-offset", "offset": off, "how": how})
     if servertype == "thread":
         # (thread server only: on the multiplex server the same thing ends the request loop, i.e. the daemon is no longer running)
         cases.append({"ending": "exit"})
@@ -262,6 +266,12 @@ def run_case(fx, world, c, rec, r, sername):
                 v.send(req[:c["offset"]])
             v.close(rst=(c["how"] == "rst"))
             rec.count("offset_endings")
+        elif e == "big-offset":
+            big = wire.encode(wire.INVOKE, 0, 9, ser.serializer_id, ser.dumpsCall("svc", "noop", ("p" * 200000,), {}))
+            v.sock.settimeout(20)
+            v.send(big[:min(c["offset"], len(big) - 1)])
+            v.close(rst=(c["how"] == "rst"))
+            rec.count("big_request_endings")
         elif e == "orderly":
             v.invoke("svc", "noop", ("x",), {}, ser)
             v.close()
